@@ -1,54 +1,956 @@
+//! C18, C19, C20 and the DFIR half of C42: the DFIR compiler's graph-level stages
+//! (`FlatGraphBuilder` -> `merge_modules` -> `eliminate_extra_unions_tees` -> `partition_graph` -> serde /
+//! `as_code`) run as a plain library on generated surface-syntax programs and judged by independent
+//! checkers over abstract copies of the graphs.
+
 mod abs;
+mod gen;
+mod oracle;
 mod pipeline;
+mod quiet;
+
+use std::collections::{BTreeMap, BTreeSet};
+use std::sync::Mutex;
+use std::sync::atomic::{AtomicUsize, Ordering};
+
 use dfir_lang::diagnostic::Diagnostics;
-use dfir_lang::graph::DfirGraph;
+use dfir_lang::graph::ops::{OPERATORS, PortListSpec, RangeTrait};
+use dfir_lang::graph::{DfirGraph, GraphNode, PortIndexValue};
+use dfir_lang::parse::IndexInt;
+use proc_macro2::Span;
+use quote::ToTokens;
+use vcommon::{Args, Reporter, Rng, Tier, Value, hash_of, json};
+use quiet::catch;
+
+use abs::{Abs, Id, abstract_graph, kid};
+use gen::{CATALOGUE, Meta};
+use oracle::*;
 use pipeline::*;
-fn main() {
-    let args = vcommon::Args::parse();
-    if args.prop == "NONE" {
-        return;
+
+const ENGINE: &str = "mon_dfirgraph";
+
+// ---------------------------------------------------------------------------------------------
+// per-thread collector, merged into the Reporter in chunk order (results do not depend on scheduling)
+
+#[derive(Default)]
+struct Col {
+    evals: u64,
+    nontrivial: Vec<u64>,
+    counters: BTreeMap<String, u64>,
+    violations: Vec<(String, String, Value)>,
+    per_sig: BTreeMap<String, u32>,
+    samples: Vec<Value>,
+    ops_seen: BTreeSet<&'static str>,
+}
+
+impl Col {
+    fn count(&mut self, k: &str) {
+        *self.counters.entry(k.to_string()).or_insert(0) += 1;
     }
-    if args.prop == "PROBE" {
-        let text = std::fs::read_to_string(&args.rest[0]).unwrap();
-        for prog in text.split("=====") {
-            println!("---- {}", prog.trim());
-            match stages(prog) {
-                Staged::ParseErr(e) => println!("parse err {e}"),
-                Staged::BuildPanic(e) => println!("build panic {e}"),
-                Staged::BuildErr(e) => println!("build err {e:?}"),
-                Staged::MergeErr(e) => println!("merge err {e}"),
-                Staged::ElimPanic { msg, .. } => println!("elim panic {msg}"),
-                Staged::AdjacentHandoffs { .. } => println!("adjacent"),
-                Staged::Partitioned { flat, uses, warnings, part, .. } => {
-                    println!("warnings {warnings:?}");
-                    match part {
-                        Part::Panic(p) => println!("partition panic {p}"),
-                        Part::Err { msg, flat: fg } => { println!("partition err {msg}"); println!("labels {:?}", labels(&fg)); }
-                        Part::Ok(g) => {
-                            let a = abs::abstract_graph(&g);
-                            println!("flat {}", flat.to_json());
-                            println!("part {}", a.to_json());
-                            let c = as_code(&g, uses.clone());
-                            let js = serde_json::to_string(&g).unwrap();
-                            let mut g2: DfirGraph = serde_json::from_str(&js).unwrap();
-                            let mut d = Diagnostics::new();
-                            g2.insert_node_op_insts_all(&mut d);
-                            println!("reload diags {:?}", diag_strings(&d));
-                            let a2 = abs::abstract_graph(&g2);
-                            println!("abs equal {}", a == a2);
-                            if a != a2 { println!("reloaded {:?}", a2.nodes); }
-                            let c2 = as_code(&g2, uses.clone());
-                            println!("code equal {}", c == c2);
-                            match (&c, &c2) { (Code::Ok{code,..}, Code::Ok{code:code2,..}) => { println!("len {} {}", code.len(), code2.len()); if code != code2 { let i = code.bytes().zip(code2.bytes()).position(|(a,b)| a!=b).unwrap_or(0); println!("A: {}\nB: {}", &code[i.saturating_sub(80)..(i+200).min(code.len())], &code2[i.saturating_sub(80)..(i+200).min(code2.len())]); } }, _ => println!("{c:?}\n{c2:?}") }
-                            println!("mermaid equal {}", g.to_mermaid(&Default::default()) == g2.to_mermaid(&Default::default()));
-                            if args.rest.len() > 1 { println!("{}", g.to_mermaid(&Default::default())); println!("{}", g2.to_mermaid(&Default::default())); }
+    fn count_n(&mut self, k: &str, n: u64) {
+        *self.counters.entry(k.to_string()).or_insert(0) += n;
+    }
+    fn violation(&mut self, sig: &str, what: &str, case: impl FnOnce() -> Value) {
+        let n = self.per_sig.entry(sig.to_string()).or_insert(0);
+        *n += 1;
+        let c = if *n <= 3 { case() } else { Value::Null };
+        let w = if *n <= 3 { what.to_string() } else { String::new() };
+        self.violations.push((sig.to_string(), w, c));
+    }
+    fn sample(&mut self, v: impl FnOnce() -> Value) {
+        if self.samples.len() < 2 {
+            self.samples.push(v());
+        }
+    }
+    fn merge_into(self, rep: &mut Reporter, ops: &mut BTreeSet<&'static str>) {
+        rep.evals(self.evals);
+        for h in self.nontrivial {
+            rep.nontrivial(h);
+        }
+        for (k, n) in self.counters {
+            rep.count_n(&k, n);
+        }
+        for (sig, what, case) in self.violations {
+            rep.violation(&sig, &what, case);
+        }
+        for s in self.samples {
+            rep.sample(|| s);
+        }
+        ops.extend(self.ops_seen);
+    }
+}
+
+fn case_json(prop: &str, family: &str, text: &str) -> Value {
+    json!({"engine": ENGINE, "prop": prop, "family": family, "program": text})
+}
+
+fn first_line(s: &str) -> String {
+    s.lines().next().unwrap_or("").chars().take(160).collect()
+}
+
+fn colors_of(g: &DfirGraph) -> Colors {
+    g.node_color_map().iter().map(|(id, c)| (kid(id), format!("{c:?}"))).collect()
+}
+
+fn note_meta(col: &mut Col, m: &Meta) {
+    if m.n_loops > 0 {
+        col.count("programs_with_loops");
+    }
+    if m.max_depth >= 2 {
+        col.count("programs_with_nested_loops");
+    }
+    if m.n_refs > 0 {
+        col.count("programs_with_references");
+    }
+    if m.n_delays > 0 {
+        col.count("programs_with_delay_ops");
+    }
+    if m.back_edges > 0 {
+        col.count("programs_with_inserted_back_edges");
+    }
+    if m.unary_union_tee > 0 {
+        col.count("programs_with_unary_union_tee");
+    }
+}
+
+/// Front-end outcomes that are not the subject of the property at hand are only counted.
+fn count_front(col: &mut Col, st: &Staged) {
+    match st {
+        Staged::ParseErr(_) => col.count("gen_parse_error"),
+        Staged::BuildPanic(_) => col.count("front_builder_panic"),
+        Staged::BuildErr(_) => col.count("front_rejected_by_builder"),
+        Staged::MergeErr(_) => col.count("front_merge_modules_error"),
+        Staged::ElimPanic { .. } => col.count("front_eliminate_panic"),
+        Staged::AdjacentHandoffs { .. } => col.count("front_adjacent_handoffs"),
+        Staged::Partitioned { .. } => col.count("reached_partitioner"),
+    }
+}
+
+// ---------------------------------------------------------------------------------------------
+// C18
+
+fn c18_on(col: &mut Col, prop: &str, family: &str, text: &str, flat: &Abs, g: &DfirGraph, meta: Option<&Meta>) -> bool {
+    let pa = abstract_graph(g);
+    let colors = colors_of(g);
+    let (fails, st) = check_c18(flat, &pa, &colors);
+    col.evals += 1 + st.handoffs + st.order_constraints + st.subgraphs + st.loops_checked;
+    col.count_n("handoffs_checked", st.handoffs);
+    col.count_n("inserted_handoffs", st.inserted_handoffs);
+    col.count_n("delayed_handoffs", st.delayed_handoffs);
+    col.count_n("order_constraints_checked", st.order_constraints);
+    col.count_n("subgraphs_checked", st.subgraphs);
+    col.count_n("loops_contiguity_checked", st.loops_checked);
+    let loop_marked = pa.nodes.values().filter(|n| n.delay.as_deref().is_some_and(|d| d.starts_with("Loop"))).count();
+    if loop_marked > 0 {
+        col.count("programs_with_loop_remapped_delay");
+    }
+    if pa.nodes.values().any(|n| n.is_op() && !n.refs.is_empty() && n.loop_id.is_some()) {
+        col.count("accepted_with_reference_from_inside_loop");
+    }
+    if st.handoffs > 0 || st.subgraphs > 1 {
+        col.nontrivial.push(hash_of(&("c18", text)));
+    }
+    if let Some(m) = meta {
+        if m.max_depth >= 2 {
+            col.count("accepted_with_nested_loops");
+        }
+        if m.n_refs > 0 {
+            col.count("accepted_with_references");
+        }
+        for o in &m.ops {
+            col.ops_seen.insert(o);
+        }
+    }
+    let mut kinds: BTreeSet<&'static str> = BTreeSet::new();
+    for f in &fails {
+        if kinds.insert(f.kind) {
+            let sig = format!("{prop}|partition_graph|{}", f.kind);
+            col.violation(&sig, &f.msg, || case_json(prop, family, text));
+        }
+    }
+    fails.is_empty()
+}
+
+fn run_c18(col: &mut Col, family: &str, text: &str, meta: Option<&Meta>) {
+    let st = stages(text);
+    count_front(col, &st);
+    if let Staged::Partitioned { flat, part, .. } = st {
+        match part {
+            Part::Ok(g) => {
+                col.count("accepted");
+                c18_on(col, "C18", family, text, &flat, &g, meta);
+                col.sample(|| json!({"program": text, "subgraphs": g.subgraph_ids().count(), "order": abstract_graph(&g).order}));
+            }
+            Part::Err { .. } => col.count("partition_rejected_cycle"),
+            Part::Panic(_) => col.count("partition_panic"),
+        }
+    }
+}
+
+// ---------------------------------------------------------------------------------------------
+// C19
+
+fn run_c19(col: &mut Col, family: &str, text: &str, meta: Option<&Meta>) {
+    let st = stages(text);
+    count_front(col, &st);
+    let Staged::Partitioned { flat, part, .. } = st else { return };
+    let d = deps(&flat);
+    let nodes: BTreeSet<Id> = flat.nodes.keys().copied().collect();
+    let acyclic = kahn_acyclic(&nodes, &d.edges);
+    // the same graph with the delay exemption removed: tells whether a delay operator breaks a cycle here
+    let mut with_delayed = d.edges.clone();
+    for (_, e) in &flat.edges {
+        with_delayed.insert((e.src, e.dst));
+    }
+    let cyclic_but_for_delay = acyclic && !kahn_acyclic(&nodes, &with_delayed);
+    col.evals += 1;
+    if !acyclic || cyclic_but_for_delay || d.n_ref > 0 || d.n_ingress > 0 {
+        col.nontrivial.push(hash_of(&("c19", text)));
+    }
+    if !acyclic {
+        // which dependency family closes the cycle (for coverage)
+        let pipes: BTreeSet<(Id, Id)> = flat.edges.iter().filter(|(_, e)| flat.nodes[&e.dst].op_name().and_then(declared_delay).is_none()).map(|(_, e)| (e.src, e.dst)).collect();
+        if !kahn_acyclic(&nodes, &pipes) {
+            col.count("cyclic_by_pipes");
+        } else if d.self_group_conflict {
+            col.count("cyclic_by_same_op_two_groups");
+        } else {
+            col.count("cyclic_only_with_reference_group_or_ingress_deps");
+            let mut no_ingress = deps_without_ingress(&flat);
+            no_ingress.extend(pipes.iter().copied());
+            if kahn_acyclic(&nodes, &no_ingress) {
+                col.count("cyclic_only_with_loop_ingress_deps");
+            }
+        }
+    }
+    let case = || case_json("C19", family, text);
+    match part {
+        Part::Ok(g) => {
+            if !acyclic {
+                col.violation("C19|partition_graph|ok-on-cyclic", "partition_graph accepted a graph whose same-tick dependency graph is cyclic", case);
+            } else {
+                col.count("accepted_acyclic");
+                if cyclic_but_for_delay {
+                    col.count("accepted_delayed_cycle");
+                }
+            }
+            c18_on(col, "C19", family, text, &flat, &g, meta);
+        }
+        Part::Err { msg, flat: fg } => {
+            col.count("rejected");
+            if acyclic {
+                col.violation("C19|partition_graph|err-on-acyclic", &format!("rejected although the dependency graph is acyclic: {}", first_line(&msg)), case);
+            } else {
+                col.count("rejected_cyclic");
+                match parse_cycle_labels(&msg) {
+                    None => col.violation("C19|partition_graph|diagnostic-without-cycle", &format!("cannot read a cycle out of: {}", first_line(&msg)), case),
+                    Some(labels) => {
+                        col.evals += 1;
+                        let nl = labels_of(&fg);
+                        if !cycle_matches(&labels, &nl, &d.edges) {
+                            col.violation("C19|partition_graph|bogus-cycle", &format!("reported cycle {:?} is not a directed cycle of the dependency graph", labels), case);
+                        }
+                        col.count_n("reported_cycle_nodes", labels.len() as u64);
+                    }
+                }
+            }
+            // documented: the pristine flat graph is handed back
+            col.evals += 1;
+            if abstract_graph(&fg) != flat {
+                col.violation("C19|partition_graph|err-flat-graph-not-pristine", "the flat graph handed back in PartitionError differs from the input", case);
+            }
+        }
+        Part::Panic(p) => {
+            col.count("partition_panic");
+            let self_delay = flat.edges.iter().any(|(_, e)| e.src == e.dst && flat.nodes[&e.dst].op_name().and_then(declared_delay).is_some());
+            let class = if d.self_group_conflict {
+                "same-op-in-two-access-groups"
+            } else if self_delay {
+                "delay-op-feeds-itself"
+            } else {
+                "other"
+            };
+            let expect = if acyclic { "acyclic (must be accepted)" } else { "cyclic (must be rejected with a cycle diagnostic)" };
+            col.violation(&format!("C19|partition_graph|panic|{class}"), &format!("partition_graph panicked on a graph that is {expect}: {}", first_line(&p)), case);
+        }
+    }
+}
+
+fn labels_of(g: &DfirGraph) -> BTreeMap<Id, String> {
+    labels(g)
+}
+
+/// Dependencies other than pipes and loop ingress (references, borrower-before-consumer, access groups).
+fn deps_without_ingress(f: &Abs) -> BTreeSet<(Id, Id)> {
+    let mut g = f.clone();
+    g.loops.clear();
+    for n in g.nodes.values_mut() {
+        n.loop_id = None;
+    }
+    deps(&g).edges
+}
+
+// ---------------------------------------------------------------------------------------------
+// C20
+
+fn port_multiset(v: &[String]) -> Vec<String> {
+    let mut v = v.to_vec();
+    v.sort();
+    v
+}
+
+/// The cached per-operator port lists must agree with the edges (the graph doc warns about staleness).
+fn inst_ports_consistent(a: &Abs) -> Option<String> {
+    for (id, n) in &a.nodes {
+        if !n.is_op() {
+            continue;
+        }
+        let Some((ip, op)) = &n.inst_ports else {
+            return Some(format!("operator {id} has no operator instance"));
+        };
+        let want_in: Vec<String> = port_multiset(&a.preds(*id).iter().map(|e| e.dp.clone()).collect::<Vec<_>>());
+        let want_out: Vec<String> = port_multiset(&a.succs(*id).iter().map(|e| e.sp.clone()).collect::<Vec<_>>());
+        if port_multiset(ip) != want_in || port_multiset(op) != want_out {
+            return Some(format!("operator {id}: cached ports in={:?} out={:?}, edges say in={:?} out={:?}", ip, op, want_in, want_out));
+        }
+    }
+    None
+}
+
+fn loops_restricted(a: &Abs) -> BTreeMap<Id, (Option<Id>, Vec<Id>, Vec<Id>)> {
+    a.loops.iter().map(|(l, x)| (*l, (x.parent, x.children.clone(), x.nodes.iter().copied().filter(|n| a.nodes.contains_key(n)).collect()))).collect()
+}
+
+fn diff_abs(want: &Abs, got: &Abs) -> Option<String> {
+    for (id, n) in &want.nodes {
+        match got.nodes.get(id) {
+            None => return Some(format!("node {id} ({:?}) is missing", n.kind)),
+            Some(m) if m != n => return Some(format!("node {id} changed: {:?} -> {:?}", n, m)),
+            _ => {}
+        }
+    }
+    for id in got.nodes.keys() {
+        if !want.nodes.contains_key(id) {
+            return Some(format!("unexpected node {id} ({:?})", got.nodes[id].kind));
+        }
+    }
+    let (we, ge) = (want.sorted_edges(), got.sorted_edges());
+    if we != ge {
+        let missing: Vec<_> = we.iter().filter(|e| !ge.contains(e)).collect();
+        let extra: Vec<_> = ge.iter().filter(|e| !we.contains(e)).collect();
+        return Some(format!("edges differ: missing {:?}, unexpected {:?}", missing, extra));
+    }
+    if loops_restricted(want) != loops_restricted(got) || want.root_loops != got.root_loops {
+        return Some("loop membership differs".to_string());
+    }
+    None
+}
+
+fn run_c20(col: &mut Col, family: &str, text: &str, _meta: Option<&Meta>, salt: u64) {
+    let case = || case_json("C20", family, text);
+    // ---- (a) eliminate_extra_unions_tees -------------------------------------------------------
+    let out = match front(text) {
+        Front::ParseErr(_) => return col.count("gen_parse_error"),
+        Front::BuildPanic(_) => return col.count("front_builder_panic"),
+        Front::BuildErr(_) => return col.count("front_rejected_by_builder"),
+        Front::Built(o) => o,
+    };
+    let mut flat_graph = out.flat_graph;
+    let uses = out.uses;
+    let built = abstract_graph(&flat_graph);
+    if flat_graph.merge_modules().is_err() {
+        return col.count("front_merge_modules_error");
+    }
+    let expected = contract_unary_unions_tees(&built);
+    let removed = expected.as_ref().map(|e| built.nodes.len() - e.nodes.len()).unwrap_or(0);
+    col.evals += 1;
+    let elim = catch(|| dfir_lang::graph::eliminate_extra_unions_tees(&mut flat_graph));
+    match (&elim, &expected) {
+        (Err(p), None) => {
+            col.count("unary_union_tee_cycle");
+            col.violation(
+                "C20|eliminate_extra_unions_tees|panic|cycle-of-unary-unions-tees",
+                &format!("the rewrite panicked on a graph containing a cycle made only of 1-in-1-out unions/tees: {}", first_line(p)),
+                case,
+            );
+            return;
+        }
+        (Err(p), Some(_)) => {
+            col.violation("C20|eliminate_extra_unions_tees|panic", &format!("the rewrite panicked: {}", first_line(p)), case);
+            return;
+        }
+        (Ok(()), None) => {
+            col.count("unary_union_tee_cycle");
+            return;
+        }
+        (Ok(()), Some(exp)) => {
+            let after = abstract_graph(&flat_graph);
+            if removed > 0 {
+                col.nontrivial.push(hash_of(&("c20a", text)));
+                col.count("elim_programs_with_removed_nodes");
+                col.count_n("elim_nodes_removed", removed as u64);
+            }
+            if let Some(d) = diff_abs(exp, &after) {
+                col.violation("C20|eliminate_extra_unions_tees|graph-differs-from-contraction", &d, case);
+            } else if let Some(d) = inst_ports_consistent(&after) {
+                col.violation("C20|eliminate_extra_unions_tees|stale-operator-instance-ports", &d, case);
+            }
+        }
+    }
+    let flat = abstract_graph(&flat_graph);
+
+    // ---- (b) merge_modules on a second build of the same program ---------------------------------
+    if let Front::Built(o2) = front(text) {
+        let mut g2 = o2.flat_graph;
+        let before = abstract_graph(&g2);
+        let mut rng = Rng::new(hash_of(text) ^ salt);
+        let eids: Vec<_> = g2.edge_ids().collect();
+        if !eids.is_empty() {
+            let k = 1 + rng.below(3.min(eids.len()));
+            let mut chosen = eids.clone();
+            rng.shuffle(&mut chosen);
+            chosen.truncate(k);
+            let input = rng.chance(1, 2);
+            let mb = g2.insert_node(GraphNode::ModuleBoundary { input, import_expr: Span::call_site() }, None, None);
+            let break_it = rng.chance(1, 6);
+            for (i, e) in chosen.iter().enumerate() {
+                let (s, d) = g2.edge(*e);
+                let (sp, dp) = g2.edge_ports(*e);
+                let (sp, dp) = (sp.clone(), dp.clone());
+                g2.remove_edge(*e);
+                let mk = |i: usize, kind: usize| -> PortIndexValue {
+                    match kind {
+                        0 => PortIndexValue::Int(IndexInt { value: i as isize, span: Span::call_site() }),
+                        1 => PortIndexValue::Path(syn::parse_str(&format!("port_{i}")).unwrap()),
+                        _ => PortIndexValue::Elided(None),
+                    }
+                };
+                let kind = if k == 1 { rng.below(3) } else { rng.below(2) };
+                g2.insert_edge(s, sp, mb, mk(i, kind));
+                // a module whose inner side uses a different port name cannot be stitched
+                let inner = if break_it && i == 0 { mk(i + 100, 0) } else { mk(i, kind) };
+                g2.insert_edge(mb, inner, d, dp);
+            }
+            col.evals += 1;
+            col.nontrivial.push(hash_of(&("c20b", text, k, break_it)));
+            let r = catch(|| g2.merge_modules());
+            match r {
+                Err(p) => col.violation("C20|merge_modules|panic", &first_line(&p), || json!({"engine": ENGINE, "prop": "C20", "family": family, "program": text, "salt": salt})),
+                Ok(Err(d)) => {
+                    if break_it {
+                        col.count("merge_modules_mismatch_rejected");
+                        if !d.message.contains("did not match") {
+                            col.violation("C20|merge_modules|mismatch-wrong-diagnostic", &d.message, case);
+                        }
+                    } else {
+                        col.violation("C20|merge_modules|err-on-matching-ports", &d.message, case);
+                    }
+                }
+                Ok(Ok(())) => {
+                    if break_it {
+                        col.violation("C20|merge_modules|ok-on-mismatched-ports", "module boundary with different port sets on its two sides was stitched", case);
+                    } else {
+                        col.count("merge_modules_stitched");
+                        col.count_n("merge_modules_edges_stitched", k as u64);
+                        let after = abstract_graph(&g2);
+                        if let Some(d) = diff_abs(&before, &after) {
+                            col.violation("C20|merge_modules|graph-differs-after-stitching", &d, case);
                         }
                     }
                 }
             }
         }
+    }
+
+    // ---- (c) serde round trip of the partitioned graph ---------------------------------------------
+    if flat.edges.iter().any(|(_, e)| flat.nodes[&e.src].is_hoff() && flat.nodes[&e.dst].is_hoff()) {
+        return col.count("front_adjacent_handoffs");
+    }
+    let part = match catch(move || dfir_lang::graph::partition_graph(flat_graph)) {
+        Ok(Ok(g)) => g,
+        Ok(Err(_)) => return col.count("partition_rejected_cycle"),
+        Err(_) => return col.count("partition_panic"),
+    };
+    let pa = abstract_graph(&part);
+    col.evals += 1;
+    if let Some(d) = inst_ports_consistent(&pa) {
+        col.violation("C20|partition_graph|stale-operator-instance-ports", &d, case);
+    }
+    let js = match serde_json::to_string(&part) {
+        Ok(j) => j,
+        Err(e) => return col.violation("C20|serde|serialize-failed", &e.to_string(), case),
+    };
+    let reloaded = catch(|| {
+        let mut g: DfirGraph = serde_json::from_str(&js).map_err(|e| e.to_string())?;
+        let mut d = Diagnostics::new();
+        g.insert_node_op_insts_all(&mut d);
+        Ok::<_, String>((g, diag_strings(&d)))
+    });
+    let (g2, diags) = match reloaded {
+        Err(p) => return col.violation("C20|serde|reload-panicked", &first_line(&p), case),
+        Ok(Err(e)) => return col.violation("C20|serde|deserialize-failed", &e, case),
+        Ok(Ok(x)) => x,
+    };
+    col.evals += 1;
+    col.nontrivial.push(hash_of(&("c20c", text)));
+    col.count("serde_round_trips");
+    if !diags.is_empty() {
+        col.violation("C20|serde|reload-diagnostics", &format!("insert_node_op_insts_all reported {:?} (Dfir::new asserts none)", diags), case);
+    }
+    let ra = abstract_graph(&g2);
+    // compare everything; the raw (pre-`#`-substitution) argument text is compared separately
+    let strip = |a: &Abs| -> Abs {
+        let mut a = a.clone();
+        for n in a.nodes.values_mut() {
+            if let abs::Kind::Op { raw_args, ref_tokens, .. } = &mut n.kind {
+                raw_args.clear();
+                ref_tokens.clear();
+            }
+        }
+        a
+    };
+    let (pa_s, ra_s) = (strip(&pa), strip(&ra));
+    if let Some(d) = diff_abs(&pa_s, &ra_s) {
+        col.violation("C20|serde|graph-differs-after-reload", &d, case);
+    } else if pa_s.subgraphs != ra_s.subgraphs {
+        col.violation("C20|serde|subgraphs-differ-after-reload", &format!("{:?} vs {:?}", pa_s.subgraphs, ra_s.subgraphs), case);
+    } else if pa_s.order != ra_s.order {
+        col.violation("C20|serde|order-differs-after-reload", &format!("{:?} vs {:?}", pa_s.order, ra_s.order), case);
+    } else if pa_s.loops != ra_s.loops {
+        col.violation("C20|serde|loops-differ-after-reload", &format!("{:?} vs {:?}", pa_s.loops, ra_s.loops), case);
+    } else if pa_s.edges != ra_s.edges {
+        col.violation("C20|serde|edge-ids-or-order-differ-after-reload", "edge list (ids, iteration order) differs", case);
+    }
+    let has_refs = pa.nodes.values().any(|n| !n.refs.is_empty());
+    if has_refs {
+        col.count("serde_round_trips_with_references");
+    }
+    if pa != ra && pa_s == ra_s {
+        // only the raw argument text / `#` reference tokens differ
+        col.violation(
+            "C20|serde|operator-arguments-lose-reference-markers",
+            "after the round trip the operators' raw arguments no longer contain the `#var` reference markers (they come back as plain identifiers) and `singletons_referenced` is empty",
+            case,
+        );
+    }
+    // what the runtime uses the reloaded graph for: rendering
+    col.evals += 1;
+    let cfg = Default::default();
+    let render = catch(|| (part.to_mermaid(&cfg), g2.to_mermaid(&cfg), part.to_dot(&cfg), g2.to_dot(&cfg)));
+    match render {
+        Err(p) => col.violation("C20|serde|rendering-panicked", &first_line(&p), case),
+        Ok((m1, m2, d1, d2)) => {
+            if m1 != m2 || d1 != d2 {
+                col.violation("C20|serde|rendering-differs-after-reload", "mermaid/dot of the reloaded graph differs from the original's", case);
+            }
+        }
+    }
+    // code generation from the reloaded graph: identical up to source locations (spans are not serialised);
+    // skipped when `#` references are present because their markers are lost (reported above)
+    if !has_refs {
+        let uses_ts = quote::quote! { #( #uses )* };
+        let c1 = as_code(&part, uses_ts.clone());
+        let c2 = as_code(&g2, uses_ts);
+        col.evals += 1;
+        let norm = |c: &Code| -> String {
+            match c {
+                Code::Ok { code, diags } => format!("ok {} {:?}", strip_locs(code), diags),
+                Code::Err(d) => format!("err {:?}", d),
+                Code::Panic(p) => format!("panic {}", first_line(p)),
+            }
+        };
+        if matches!(c1, Code::Ok { .. }) {
+            col.count("as_code_compared_after_reload");
+        } else {
+            col.count("as_code_not_ok");
+        }
+        if norm(&c1) != norm(&c2) {
+            col.violation("C20|serde|as_code-differs-after-reload", &format!("original: {} ... reloaded: {} ...", norm(&c1).chars().take(120).collect::<String>(), norm(&c2).chars().take(120).collect::<String>()), case);
+        }
+    }
+    col.sample(|| json!({"program": text, "removed_unary": removed, "json_bytes": js.len()}));
+}
+
+/// Remove the `loc_nopath_<l>_<c>_<l>_<c>` source-location suffixes from generated identifiers.
+fn strip_locs(code: &str) -> String {
+    let mut out = String::with_capacity(code.len());
+    let mut rest = code;
+    while let Some(i) = rest.find("loc_nopath_") {
+        out.push_str(&rest[..i]);
+        out.push_str("loc");
+        let tail = &rest[i + "loc_nopath_".len()..];
+        let n = tail.bytes().take_while(|b| b.is_ascii_digit() || *b == b'_').count();
+        rest = &tail[n..];
+    }
+    out.push_str(rest);
+    out
+}
+
+// ---------------------------------------------------------------------------------------------
+// C42 (DFIR half)
+
+#[derive(Clone, Debug, PartialEq, Eq)]
+struct Digest {
+    class: String,
+    graph: u64,
+    code: u64,
+    diags: u64,
+}
+
+fn digest(o: &OneShot) -> Digest {
+    Digest { class: o.class.to_string(), graph: hash_of(&o.graph_json), code: hash_of(&o.code), diags: hash_of(&o.diags) }
+}
+
+fn c42_in_process(col: &mut Col, family: &str, text: &str) -> Option<Digest> {
+    let a = one_shot(text);
+    let case = || case_json("C42", family, text);
+    col.evals += 1;
+    for round in 0..2 {
+        // allocate something in between so that later maps/arenas land elsewhere
+        let _junk: Vec<Vec<u8>> = (0..(7 + round * 13)).map(|i| vec![0u8; 100 + 37 * i]).collect();
+        let b = one_shot(text);
+        if a.class != b.class {
+            col.violation("C42|dfir|in-process|outcome-differs", &format!("{} vs {}", a.class, b.class), case);
+            return None;
+        }
+        if a.graph_json != b.graph_json {
+            col.violation("C42|dfir|in-process|graph-json-differs", "two compilations of the same program in one process gave different partitioned graphs", case);
+            return None;
+        }
+        if a.code != b.code {
+            col.violation("C42|dfir|in-process|code-differs", "two compilations of the same program in one process gave different token streams", case);
+            return None;
+        }
+        if a.diags != b.diags {
+            col.violation("C42|dfir|in-process|diagnostics-differ", &format!("{:?} vs {:?}", a.diags, b.diags), case);
+            return None;
+        }
+    }
+    match a.class {
+        "ok" => {
+            col.count("compiled_ok");
+            col.nontrivial.push(hash_of(&("c42", text)));
+        }
+        "err" => col.count("compiled_err"),
+        "panic" => col.count("compiled_panic"),
+        _ => col.count("gen_parse_error"),
+    }
+    Some(digest(&a))
+}
+
+fn c42_child(args: &Args) {
+    // perturb the heap layout differently per child
+    let mut rng = Rng::new(args.seed);
+    let _junk: Vec<Vec<u8>> = (0..rng.below(200)).map(|i| vec![1u8; 64 + rng.below(5000) + i]).collect();
+    let path = args.rest.iter().find(|a| !a.starts_with("--")).expect("child: file");
+    let texts: Vec<String> = serde_json::from_str(&std::fs::read_to_string(path).expect("child: read")).expect("child: json");
+    for (i, t) in texts.iter().enumerate() {
+        let d = digest(&one_shot(t));
+        println!("{}", json!({"i": i, "class": d.class, "graph": d.graph, "code": d.code, "diags": d.diags}));
+    }
+}
+
+fn run_c42(args: &Args, rep: &mut Reporter) {
+    let n = args.budget(300, 5000, 20);
+    let base = args.rng();
+    let mut texts: Vec<(String, Meta)> = vec![];
+    for i in 0..n {
+        let mut r = base.fork(0xC42 + i as u64);
+        let p = gen::random_program(&mut r);
+        texts.push((p.text, p.meta));
+    }
+    let mut ops = BTreeSet::new();
+    let mut col = Col::default();
+    let mut digests: Vec<Option<Digest>> = vec![];
+    for (t, m) in &texts {
+        note_meta(&mut col, m);
+        let d = c42_in_process(&mut col, "random", t);
+        if d.as_ref().is_some_and(|d| d.class == "ok") {
+            for o in &m.ops {
+                col.ops_seen.insert(o);
+            }
+            if m.n_loops >= 2 {
+                col.count("compiled_ok_with_two_or_more_loops");
+            }
+        }
+        digests.push(d);
+    }
+    // separate processes, 3 per batch
+    let exe = std::env::current_exe().expect("current_exe");
+    let batch = 500usize;
+    let mut child_checked = 0u64;
+    for (bi, chunk) in texts.chunks(batch).enumerate() {
+        let file = std::env::temp_dir().join(format!("dfirgraph-c42-{}-{}.json", std::process::id(), bi));
+        let list: Vec<&String> = chunk.iter().map(|(t, _)| t).collect();
+        std::fs::write(&file, serde_json::to_string(&list).unwrap()).expect("write batch");
+        let kids: Vec<_> = (0..3)
+            .map(|k| {
+                std::process::Command::new(&exe)
+                    .args(["--prop", "C42CHILD", "--seed", &format!("{}", args.seed * 31 + k + 1)])
+                    .arg(&file)
+                    .stdout(std::process::Stdio::piped())
+                    .stderr(std::process::Stdio::null())
+                    .spawn()
+                    .expect("spawn child")
+            })
+            .collect();
+        for (k, kid) in kids.into_iter().enumerate() {
+            let out = kid.wait_with_output().expect("child output");
+            let mut seen = 0usize;
+            for line in String::from_utf8_lossy(&out.stdout).lines() {
+                let Ok(v) = serde_json::from_str::<Value>(line) else { continue };
+                let i = v["i"].as_u64().unwrap() as usize;
+                seen += 1;
+                let gi = bi * batch + i;
+                let Some(mine) = &digests[gi] else { continue };
+                let theirs = Digest { class: v["class"].as_str().unwrap().to_string(), graph: v["graph"].as_u64().unwrap(), code: v["code"].as_u64().unwrap(), diags: v["diags"].as_u64().unwrap() };
+                col.evals += 1;
+                child_checked += 1;
+                let text = &texts[gi].0;
+                let case = || case_json("C42", "random", text);
+                if mine.class != theirs.class {
+                    col.violation("C42|dfir|cross-process|outcome-differs", &format!("{} here vs {} in child {k}", mine.class, theirs.class), case);
+                } else if mine.graph != theirs.graph {
+                    col.violation("C42|dfir|cross-process|graph-json-differs", &format!("child process {k} produced a different partitioned graph"), case);
+                } else if mine.code != theirs.code {
+                    col.violation("C42|dfir|cross-process|code-differs", &format!("child process {k} produced a different token stream"), case);
+                } else if mine.diags != theirs.diags {
+                    col.violation("C42|dfir|cross-process|diagnostics-differ", &format!("child process {k} produced different diagnostics"), case);
+                }
+            }
+            if !out.status.success() || seen != chunk.len() {
+                rep.require(false, &format!("child process {k} of batch {bi} failed or was short ({seen}/{} results)", chunk.len()));
+            }
+        }
+        let _ = std::fs::remove_file(&file);
+    }
+    col.count_n("cross_process_comparisons", child_checked);
+    col.merge_into(rep, &mut ops);
+    rep.extra("operators_seen_in_compiled_programs", json!(ops.len()));
+    if args.tier != Tier::Miri {
+        let ok = rep.counter("compiled_ok");
+        rep.require(ok as usize >= n / 4, "fewer than a quarter of the programs compiled to code");
+        rep.require(rep.counter("gen_parse_error") == 0, "the generator emitted unparsable programs");
+        rep.require(child_checked as usize >= 3 * n * 9 / 10, "too few cross-process comparisons");
+        rep.require(rep.counter("compiled_ok_with_two_or_more_loops") >= 3, "fewer than 3 compiled programs with >= 2 loops");
+        rep.require(ops.len() >= CATALOGUE.len() * 8 / 10, "fewer than 80% of the catalogue operators appeared in compiled programs");
+    }
+}
+
+// ---------------------------------------------------------------------------------------------
+// drivers
+
+fn check_catalogue() -> Result<(), String> {
+    // harness self-check: the generator's catalogue agrees with the compiler's operator table
+    for s in CATALOGUE {
+        if matches!(s.name, "handoff" | "singleton" | "optional") {
+            continue;
+        }
+        let Some(op) = OPERATORS.iter().find(|o| o.name == s.name) else {
+            return Err(format!("catalogue operator {} does not exist", s.name));
+        };
+        let ports = |f: Option<fn() -> PortListSpec>| -> Option<Vec<String>> {
+            match f.map(|f| f()) {
+                Some(PortListSpec::Fixed(p)) => Some(p.iter().map(|x| x.to_token_stream().to_string()).collect()),
+                _ => None,
+            }
+        };
+        if let gen::In::Ports(p) = s.inn {
+            let real = ports(op.ports_inn);
+            if real.is_some() && real != Some(p.iter().map(|x| x.to_string()).collect()) {
+                return Err(format!("{}: input ports {:?} vs {:?}", s.name, p, real));
+            }
+        }
+        if let gen::Out::Ports(p) = s.out {
+            let real = ports(op.ports_out);
+            if real.is_some() && real != Some(p.iter().map(|x| x.to_string()).collect()) {
+                return Err(format!("{}: output ports {:?} vs {:?}", s.name, p, real));
+            }
+        }
+        for np in s.pers {
+            if !op.persistence_args.contains(np) {
+                return Err(format!("{}: {} persistence args not allowed", s.name, np));
+            }
+        }
+    }
+    Ok(())
+}
+
+type PerProg = fn(&mut Col, &str, &str, Option<&Meta>, u64);
+
+fn per_prog(prop: &str) -> PerProg {
+    match prop {
+        "C18" => |c, f, t, m, _| run_c18(c, f, t, m),
+        "C19" => |c, f, t, m, _| run_c19(c, f, t, m),
+        "C20" => |c, f, t, m, s| run_c20(c, f, t, m, s),
+        _ => unreachable!(),
+    }
+}
+
+fn run_graph_prop(args: &Args, rep: &mut Reporter) -> bool {
+    let prop = args.prop.clone();
+    let f = per_prog(&prop);
+    let n = args.budget(3000, 100_000, 40);
+    let mut ops: BTreeSet<&'static str> = BTreeSet::new();
+    let salt = args.seed;
+
+    // ---- bounded-exhaustive tiny graphs -------------------------------------------------------
+    let mut exhaustive = false;
+    if args.tier != Tier::Miri {
+        let mut col = Col::default();
+        let kmax_full = if args.tier == Tier::Thorough { 4 } else { 3 };
+        let mut rng = args.rng().fork(0x7177);
+        for k in 1..=4usize {
+            let mut count = 0u64;
+            gen::tiny_enumerate(k, &mut |_labels, _edges, text| {
+                if k > kmax_full && !rng.chance(1, 12) {
+                    return;
+                }
+                count += 1;
+                f(&mut col, "tiny", &text, None, salt);
+            });
+            col.count_n(&format!("tiny_graphs_k{k}"), count);
+        }
+        exhaustive = true;
+        rep.extra("tiny_family", json!({"alphabet": gen::TINY_ALPHABET.iter().map(|x| x.0).collect::<Vec<_>>(), "complete_up_to_k": kmax_full, "k4": if kmax_full == 4 { "complete" } else { "sampled 1/12" }}));
+        col.merge_into(rep, &mut BTreeSet::new());
+    }
+
+    // ---- random programs (parallel workers, deterministic chunking) ----------------------------------
+    let chunk = 200usize;
+    let nchunks = n.div_ceil(chunk);
+    let next = AtomicUsize::new(0);
+    let results: Mutex<BTreeMap<usize, Col>> = Mutex::new(BTreeMap::new());
+    let workers = std::thread::available_parallelism().map(|x| x.get()).unwrap_or(4).clamp(1, 8);
+    let base = args.rng();
+    std::thread::scope(|s| {
+        for _ in 0..workers {
+            s.spawn(|| {
+                loop {
+                    let ci = next.fetch_add(1, Ordering::Relaxed);
+                    if ci >= nchunks {
+                        break;
+                    }
+                    let mut col = Col::default();
+                    for i in ci * chunk..((ci + 1) * chunk).min(n) {
+                        let mut r = base.fork(0xD0F1 + i as u64);
+                        let p = gen::random_program(&mut r);
+                        note_meta(&mut col, &p.meta);
+                        if p.meta.same_op_two_groups {
+                            col.count("programs_with_same_op_in_two_access_groups");
+                        }
+                        f(&mut col, "random", &p.text, Some(&p.meta), salt);
+                    }
+                    results.lock().unwrap().insert(ci, col);
+                }
+            });
+        }
+    });
+    for (_, col) in results.into_inner().unwrap() {
+        col.merge_into(rep, &mut ops);
+    }
+    rep.extra("catalogue_size", json!(CATALOGUE.len()));
+    rep.extra("operators_seen_in_programs_reaching_the_checker", json!(ops.len()));
+    let missing: Vec<&str> = CATALOGUE.iter().map(|s| s.name).filter(|n| !ops.contains(n)).collect();
+    if !missing.is_empty() {
+        rep.extra("operators_never_seen", json!(missing));
+    }
+
+    // ---- minimum observation -------------------------------------------------------------------
+    if args.tier != Tier::Miri {
+        rep.require(rep.counter("gen_parse_error") == 0, "the generator emitted unparsable programs");
+        match prop.as_str() {
+            "C18" => {
+                rep.require(missing.is_empty(), "some catalogue operators never appeared in an accepted program");
+                rep.require(rep.counter("accepted") as usize >= n / 4, "fewer than a quarter of the random programs were accepted");
+                rep.require(rep.counter("accepted_with_nested_loops") >= 30, "fewer than 30 accepted programs with nested loops");
+                rep.require(rep.counter("accepted_with_references") >= 30, "fewer than 30 accepted programs with references");
+                rep.require(rep.counter("delayed_handoffs") >= 100, "fewer than 100 delayed handoffs checked");
+                rep.require(rep.counter("programs_with_loop_remapped_delay") >= 5, "fewer than 5 programs with a Tick->Loop remapped handoff");
+            }
+            "C19" => {
+                rep.require(rep.counter("rejected_cyclic") >= 50, "fewer than 50 rejected cycles");
+                rep.require(rep.counter("accepted_delayed_cycle") >= 50, "fewer than 50 accepted cycles broken by a delay operator");
+                rep.require(rep.counter("cyclic_only_with_reference_group_or_ingress_deps") >= 10, "fewer than 10 cycles closed only by reference/access-group/ingress dependencies");
+                rep.require(rep.counter("accepted_acyclic") as usize >= n / 5, "too few accepted programs");
+            }
+            _ => {
+                rep.require(rep.counter("elim_programs_with_removed_nodes") >= 100, "fewer than 100 programs with a removed unary union/tee");
+                rep.require(rep.counter("merge_modules_stitched") >= 100, "fewer than 100 stitched module boundaries");
+                rep.require(rep.counter("merge_modules_mismatch_rejected") >= 10, "fewer than 10 mismatched module boundaries");
+                rep.require(rep.counter("serde_round_trips") as usize >= n / 4, "too few serde round trips");
+                rep.require(rep.counter("as_code_compared_after_reload") >= 100, "fewer than 100 as_code comparisons after reload");
+            }
+        }
+    }
+    exhaustive
+}
+
+fn replay(args: &Args, rep: &mut Reporter, case: Value) {
+    let text = case["program"].as_str().expect("replay: program").to_string();
+    let family = case["family"].as_str().unwrap_or("replay").to_string();
+    let prop = case["prop"].as_str().unwrap_or(&args.prop).to_string();
+    let mut col = Col::default();
+    match prop.as_str() {
+        "C18" | "C19" | "C20" => per_prog(&prop)(&mut col, &family, &text, None, case["salt"].as_u64().unwrap_or(args.seed)),
+        "C42" => {
+            let _ = c42_in_process(&mut col, &family, &text);
+        }
+        p => panic!("replay: unknown prop {p}"),
+    }
+    col.merge_into(rep, &mut BTreeSet::new());
+}
+
+fn main() {
+    let args = Args::parse();
+    if args.prop == "NONE" {
         return;
     }
-    eprintln!("not implemented yet");
-    std::process::exit(3);
+    if args.prop == "C42CHILD" {
+        c42_child(&args);
+        return;
+    }
+    if args.prop == "SHOW" {
+        // debugging aid: print a few generated programs
+        let base = args.rng();
+        for i in 0..args.budget(5, 5, 5) {
+            let mut r = base.fork(0xD0F1 + i as u64);
+            let p = gen::random_program(&mut r);
+            println!("// ---- program {i} {:?}\n{}", p.meta.ops, p.text);
+        }
+        return;
+    }
+    if let Err(e) = check_catalogue() {
+        eprintln!("harness: catalogue mismatch: {e}");
+        std::process::exit(3);
+    }
+    let prop = args.prop.clone();
+    let mut rep = Reporter::new(&prop, args.seed);
+    if let Some(case) = args.replay_case() {
+        replay(&args, &mut rep, case);
+        rep.finish("replay of one recorded program", false);
+        return;
+    }
+    match prop.as_str() {
+        "C18" | "C19" | "C20" => {
+            let ex = run_graph_prop(&args, &mut rep);
+            let rule = match prop.as_str() {
+                "C18" => "Programs: (a) every arity-respecting wiring of <=3 (thorough: <=4) operators over {source_iter,map,union,tee,defer_tick,for_each}; (b) seeded random DFIR texts over a 74-operator catalogue with nested loop blocks, handoff()/singleton()/optional() references with access groups, unary unions/tees and inserted back edges, rendered in randomised surface form. Each is run through the macro's own stages; every accepted partitioned graph is judged by an independent checker (membership, loop context, pull*-push* tree shape, handoff shape/adjacency, delay markings, subgraph order incl. references/access groups, loop contiguity). Non-trivial = accepted program with at least one handoff or two subgraphs.",
+                "C19" => "Same programs as C18 with deliberately inserted back edges (with/without defer_tick/defer_tick_lazy), references, access groups and loop re-entry. The harness builds the same-tick dependency digraph from the flat graph (pipes minus delayed inputs, referee->referencer, borrower->consumer, lower->higher access group, sender->whole loop) and decides cyclicity with Kahn: partition_graph must return Err iff cyclic, the diagnostic's cycle must spell a directed cycle of that digraph, the flat graph handed back must be unchanged, and accepted graphs also pass the C18 checker. Non-trivial = program whose dependency graph is cyclic, or cyclic but for a delay, or has reference/ingress dependencies.",
+                _ => "Same programs as C18. (a) eliminate_extra_unions_tees is compared with an independent contraction of every 1-in-1-out union/tee on an abstract copy (operators, arguments, ports of surviving edges, loops, cached operator-instance ports); (b) 1-3 random edges are rerouted through a ModuleBoundary node with fresh int/path/elided port labels (as an imported module would) and merge_modules must restore exactly the original wiring, or report a port mismatch when one side is relabelled; (c) the partitioned graph is serialised with serde_json, reloaded and completed with insert_node_op_insts_all exactly as Dfir::new does, and must have identical nodes, edges+ports, subgraphs, handoffs+delays, order, loops, references, renderings and (without # references) as_code output up to source locations. Non-trivial = a unary union/tee was removed / a boundary was stitched / a round trip was performed.",
+            };
+            rep.finish(rule, ex);
+        }
+        "C42" => {
+            if !args.rest.iter().any(|a| a == "dfir") {
+                eprintln!("note: only --part dfir is implemented in this monitor");
+            }
+            run_c42(&args, &mut rep);
+            rep.finish("Seeded random DFIR programs (same generator as C18) are each compiled with build_dfir_code three times in this process (every HashMap gets a fresh RandomState, allocations in between) and once in each of three child processes with differently perturbed heaps; outcome class, serde_json of the partitioned graph, the generated token stream text and the diagnostics must all be identical. Non-trivial = program that compiles to code.", false);
+        }
+        p => {
+            eprintln!("unknown property {p}");
+            std::process::exit(3);
+        }
+    }
 }
